@@ -88,7 +88,267 @@ impl Gen {
                 }
                 Some(J::obj(vec![("prop", J::s(&prop)), ("kind", J::s("bytes")), ("bytes", J::s(&hex(&b)))]))
             }
+            "C02" | "C03" | "C04" | "C05" | "C06" | "C07" | "C14" | "C16" | "C17" => {
+                let c = any_cfg(rng, &prop);
+                Some(J::obj(vec![("prop", J::s(&prop)), ("kind", J::s("cfg")), ("cfg", c.to_json())]))
+            }
             _ => None,
+        }
+    }
+}
+
+// ---------------------------------------------------------------------------------------------------------------
+// builder configurations
+use crate::cfg::*;
+
+fn pad(rng: &mut Rng) -> u8 {
+    match rng.below(10) {
+        0..=4 => 0,
+        5 => 4,
+        6 => 8,
+        7 => (4 * rng.below(64)) as u8,
+        8 => 252,
+        _ => rng.byte(), // mostly invalid
+    }
+}
+
+fn u32v(rng: &mut Rng) -> u32 {
+    match rng.below(6) {
+        0 => 0,
+        1 => 0xffff_ffff,
+        2 => rng.below(256) as u32,            // leading zero bytes
+        3 => (rng.below(256) as u32) << 24,
+        _ => rng.next() as u32,
+    }
+}
+
+fn rb(rng: &mut Rng) -> Rb {
+    Rb {
+        ssrc: u32v(rng),
+        fraction: rng.byte(),
+        cum: match rng.below(8) {
+            0 => 0xffffff,
+            1 => 0x1000000,
+            2 => 0,
+            3 => rng.next() as u32,
+            _ => (rng.next() as u32) & 0xffffff,
+        },
+        ext: u32v(rng),
+        jitter: u32v(rng),
+        lsr: u32v(rng),
+        dlsr: u32v(rng),
+    }
+}
+
+fn count(rng: &mut Rng) -> usize {
+    match rng.below(12) {
+        0..=3 => rng.below(3) as usize,
+        4..=8 => rng.below(6) as usize,
+        9 => 31,
+        10 => 32,
+        _ => rng.below(34) as usize,
+    }
+}
+
+fn text(rng: &mut Rng, max: usize) -> String {
+    let n = match rng.below(10) {
+        0 => 0,
+        1..=6 => rng.below(9) as usize,
+        7 => 255.min(max),
+        8 => 256.min(max),
+        _ => rng.below(max as u64 + 1) as usize,
+    };
+    let mut s = String::new();
+    while s.len() < n {
+        if rng.chance(1, 12) && s.len() + 2 <= n {
+            s.push('é');
+        } else {
+            s.push((b'a' + rng.below(26) as u8) as char);
+        }
+    }
+    s
+}
+
+fn bytes(rng: &mut Rng, n: usize) -> Vec<u8> {
+    (0..n).map(|_| if rng.chance(1, 4) { 0 } else { rng.byte() }).collect()
+}
+
+fn fci(rng: &mut Rng) -> Fci {
+    match rng.below(5) {
+        0 => {
+            let n = rng.below(12) as usize;
+            let base: u16 = match rng.below(5) {
+                0 => 0,
+                1 => 65535 - rng.below(20) as u16,
+                2 => 0x1234,
+                _ => rng.next() as u16,
+            };
+            let mut v = vec![];
+            let mut cur = base;
+            for _ in 0..n {
+                v.push(cur);
+                let step = match rng.below(6) {
+                    0 => 0,
+                    1 => 1,
+                    2 => 16,
+                    3 => 17,
+                    4 => rng.below(40) as u16,
+                    _ => rng.next() as u16,
+                };
+                cur = cur.wrapping_add(step);
+            }
+            Fci::Nack(v)
+        }
+        1 => {
+            let n = rng.below(6) as usize;
+            let mut v: Vec<(u32, u8)> = vec![];
+            for _ in 0..n {
+                let s = if rng.chance(1, 3) && !v.is_empty() { v[0].0 } else { u32v(rng) };
+                v.push((s, rng.byte()));
+            }
+            Fci::Fir(v)
+        }
+        2 => {
+            let n = rng.below(5) as usize;
+            Fci::Sli((0..n).map(|_| ((rng.next() as u16) & 0x1fff, (rng.next() as u16) & 0x1fff, rng.byte() & 0x3f)).collect())
+        }
+        3 => {
+            let n = rng.below(10) as usize;
+            let data = bytes(rng, n);
+            let overrun = match rng.below(6) {
+                0 => 0,
+                1 => 8,
+                2 => 9,
+                _ => rng.below(9) as u8,
+            };
+            Fci::Rpsi { pt: if rng.chance(1, 8) { 128 + rng.below(128) as u8 } else { rng.below(128) as u8 }, data, overrun }
+        }
+        _ => Fci::Pli,
+    }
+}
+
+pub fn leaf_cfg(rng: &mut Rng, kind: u64) -> Cfg {
+    match kind {
+        0 => {
+            let nl = match rng.below(8) {
+                0 => 0,
+                1 => 5,
+                _ => rng.below(5) as usize,
+            };
+            let mut name = String::new();
+            for _ in 0..nl {
+                name.push(if rng.chance(1, 15) { 'é' } else { (b'A' + rng.below(26) as u8) as char });
+            }
+            let dl = if rng.chance(1, 8) { rng.below(20) as usize } else { 4 * rng.below(6) as usize };
+            Cfg::App { ssrc: u32v(rng), padding: pad(rng), subtype: if rng.chance(1, 8) { rng.byte() } else { rng.below(32) as u8 }, name, data: bytes(rng, dl) }
+        }
+        1 => {
+            let n = count(rng);
+            Cfg::Bye { padding: pad(rng), sources: (0..n).map(|_| u32v(rng)).collect(), reason: text(rng, 260) }
+        }
+        2 => {
+            let n = count(rng);
+            Cfg::Sr { ssrc: u32v(rng), padding: pad(rng), ntp: rng.next(), rtp: u32v(rng), pc: u32v(rng), oc: u32v(rng), blocks: (0..n).map(|_| rb(rng)).collect() }
+        }
+        3 => {
+            let n = count(rng);
+            Cfg::Rr { ssrc: u32v(rng), padding: pad(rng), blocks: (0..n).map(|_| rb(rng)).collect() }
+        }
+        4 => {
+            let n = match rng.below(10) {
+                0 => 0,
+                1 => 31,
+                2 => 32,
+                _ => rng.below(4) as usize,
+            };
+            let chunks = (0..n)
+                .map(|_| {
+                    let k = rng.below(4) as usize;
+                    Chunk {
+                        ssrc: u32v(rng),
+                        items: (0..k)
+                            .map(|_| {
+                                let t = match rng.below(6) {
+                                    0 => 8,
+                                    1 => 1,
+                                    _ => 1 + rng.below(12) as u8,
+                                };
+                                let pl = if t == 8 { match rng.below(6) { 0 => 0, 1 => 254, 2 => 255, _ => rng.below(6) as usize } } else { if rng.chance(1, 10) { 3 } else { 0 } };
+                                Item { type_: t, prefix: bytes(rng, pl), value: text(rng, 258) }
+                            })
+                            .collect(),
+                    }
+                })
+                .collect();
+            Cfg::Sdes { padding: pad(rng), chunks }
+        }
+        5 => {
+            let dl = if rng.chance(1, 8) { rng.below(20) as usize } else { 4 * rng.below(6) as usize };
+            Cfg::Unknown { padding: pad(rng), type_: if rng.chance(1, 2) { 207 + rng.below(40) as u8 } else { rng.byte() }, count: if rng.chance(1, 8) { rng.byte() } else { rng.below(32) as u8 }, data: bytes(rng, dl) }
+        }
+        _ => {
+            let f = fci(rng);
+            let transport = if rng.chance(9, 10) { fci_is_transport(&f) } else { rng.chance(1, 2) };
+            Cfg::Fb { transport, sender: u32v(rng), media: u32v(rng), padding: pad(rng), fci: f }
+        }
+    }
+}
+
+pub fn any_cfg(rng: &mut Rng, prop: &str) -> Cfg {
+    let kinds: &[u64] = match prop {
+        "C02" => &[2, 3],
+        "C03" => &[4],
+        "C04" => &[0, 1],
+        "C05" => &[6],
+        "C14" => &[7],
+        _ => &[0, 1, 2, 3, 4, 5, 6, 6, 7],
+    };
+    let k = *rng.pick(kinds);
+    if k == 7 {
+        let n = rng.below(5) as usize;
+        let mut members = vec![];
+        for i in 0..n {
+            let mut m = if rng.chance(1, 12) {
+                {
+                    let k = rng.below(3);
+                    let mut inner = vec![];
+                    for _ in 0..k {
+                        let kind = rng.below(7);
+                        inner.push(leaf_cfg(rng, kind));
+                    }
+                    Cfg::Compound(inner)
+                }
+            } else {
+                {
+                    let kind = rng.below(7);
+                    leaf_cfg(rng, kind)
+                }
+            };
+            // mostly legal padding placement
+            if i + 1 != n && rng.chance(9, 10) {
+                set_padding(&mut m, 0);
+            }
+            members.push(m);
+        }
+        Cfg::Compound(members)
+    } else {
+        leaf_cfg(rng, k)
+    }
+}
+
+pub fn set_padding(c: &mut Cfg, p: u8) {
+    match c {
+        Cfg::App { padding, .. }
+        | Cfg::Bye { padding, .. }
+        | Cfg::Sr { padding, .. }
+        | Cfg::Rr { padding, .. }
+        | Cfg::Sdes { padding, .. }
+        | Cfg::Unknown { padding, .. }
+        | Cfg::Fb { padding, .. } => *padding = p,
+        Cfg::Compound(v) => {
+            if let Some(l) = v.last_mut() {
+                set_padding(l, p)
+            }
         }
     }
 }
